@@ -117,6 +117,7 @@ const (
 	kFuture           // time beyond now+drift
 	kPastSmall        // 0.4 s before the predecessor (still after the trusted header unless first)
 	kSame             // the very same header as its predecessor in the range (the trusted header itself when first)
+	kGapLinked        // height+2 whose LastHeader() names the predecessor (a hole papered over by an unauthenticated field)
 	nKinds
 )
 
@@ -153,6 +154,15 @@ func c02Case(first uint64, kinds []int) {
 			h.T = now + hour
 		case kPastSmall:
 			h.T = prevT - 400e6
+		case kGapLinked:
+			h.H = prevH + 2
+			h.Prev = t.Hash()
+			for i := len(us) - 1; i >= 0; i-- {
+				if us[i] != nil {
+					h.Prev = us[i].Hash()
+					break
+				}
+			}
 		case kSame:
 			h = t
 			for i := len(us) - 1; i >= 0; i-- {
